@@ -180,6 +180,7 @@ class World:
         self.expected = {}  # path -> (op key, reference digest, reference)
         self.memo = {}
         self._files = {}
+        self._graveyard = []
         simclock.reset()
 
     def fileno(self, base):
@@ -384,6 +385,12 @@ class World:
             return
         if kind == 'restart':
             extra = s.history[len(s.spec['history']):]
+            # the curve objects of dead sessions are kept alive: a curve
+            # without __repr__ is identified in cache keys by its address,
+            # and CPython would hand a freed address to the next curve
+            # object (a latent hazard of the repo outside the five shipped
+            # curves; it must not make runs allocator dependent)
+            self._graveyard.append(s.case.mesh.gamma_space)
             self.sessions[op['sid']] = Session(s.spec, self.dirs,
                                                self.run['dirs'], extra)
             if any(os.path.isdir(d) and os.listdir(d) for d in self.dirs):
@@ -684,6 +691,11 @@ def gen_run(seed, params):
     ops = []
     sess = {}  # sid -> dict(curve, n, dir, pool of selections)
     twin = rng.random() < params.get('p_twin', 0.15)
+    # the two curves of a twin run: two named curves whose element reprs
+    # coincide on [2, 4], or two ad-hoc polygons of the generic class (only
+    # their object identity tells them apart) with equal side lengths
+    twin_pair = ['UnitSquare', 'LShape'] if rng.random() < 0.6 else [
+        'PolyA', 'PolyB']
     twin_problems = (not twin) and rng.random() < params.get(
         'p_twin_problems', 0.09)
     # ... either in one directory (two problems, one operator configuration)
@@ -710,7 +722,7 @@ def gen_run(seed, params):
     graded = False
     for sid in range(n_sessions):
         if twin:
-            curve = ['UnitSquare', 'LShape'][sid]
+            curve = twin_pair[sid]
             hist = [{'op': 'uniform'}, {'op': 'uniform'}]
             # equal reprs on the shared parameter range need equal histories
             if sid == 1:
@@ -929,9 +941,10 @@ def gen_run(seed, params):
                 # parameter range [2, 4] (corner on the square, straight on
                 # the L-shape), one half of the time axis
                 tb = rng.choice([[0.0, 0.5], [0.5, 1.0], [0.25, 0.75]])
-                test = {'kind': 'box', 'box': [tb[0], tb[1], 2.0, 4.0]}
+                xb = [2.0, 4.0] if twin_pair[0] == 'UnitSquare' else [0.0, 4.0]
+                test = {'kind': 'box', 'box': [tb[0], tb[1]] + xb}
                 trial = test if rng.random() < 0.6 else {
-                    'kind': 'box', 'box': [0.0, 0.5, 2.0, 4.0]}
+                    'kind': 'box', 'box': [0.0, 0.5] + xb}
         S['sels'].append((test, trial))
         if rng.random() < 0.08:
             base['as_tuple'] = True
